@@ -205,6 +205,24 @@ func C13(run *report.Run) {
 		if run.Tier == "thorough" {
 			long = append(long, allStrings(c13Alphabet, 5, 6)...)
 		}
+		// long lines: one unit that needs escaping at every offset of a long run of plain bytes (one-line and
+		// multi-line contents), so that any wrapping, chunking or buffering of the literal meets it at every phase
+		{
+			span := 300
+			if run.Tier == "thorough" {
+				span = 700
+			}
+			special := [][]byte{{'\\'}, {'"'}, {'`'}, {'\t'}, {0x7f}, []byte("é"), {'\\', '\\'}, []byte("\\n"), {'\r'}}
+			for _, u := range special {
+				for off := 0; off <= span; off++ {
+					line := append(append(bytes.Repeat([]byte{'a'}, off), u...), bytes.Repeat([]byte{'a'}, span+20-off)...)
+					long = append(long, line)
+					if off%7 == 0 {
+						long = append(long, append([]byte("k: v\n"), line...))
+					}
+				}
+			}
+		}
 		const chunk = 2000
 		var jobs2 []*genrun.Job
 		for i := 0; i < len(long); i += chunk {
@@ -238,6 +256,6 @@ func C13(run *report.Run) {
 	run.Cov["outcome_classes"] = classes
 	run.Cov["equal"] = ok
 	run.Cov["alphabet"] = fmt.Sprintf("%q", c13Alphabet)
-	run.Cov["rule"] = "state = one spec-file content (every byte string over the alphabet up to the length bound; every repository spec in as-is / CRLF / no-trailing-newline / one-line-JSON form) × donotedit; transition = generate, compile spec_file.go with go/types, evaluate the SpecFile constant, compare with the input"
+	run.Cov["rule"] = "state = one spec-file content (every byte string over the alphabet up to the length bound; every repository spec in as-is / CRLF / no-trailing-newline / one-line-JSON form; long lines with one escape-needing unit at every offset) × donotedit; transition = generate, compile spec_file.go with go/types, evaluate the SpecFile constant, compare with the input"
 	c13Served(run, env)
 }
